@@ -14,6 +14,8 @@ the same call sequences and compared with the observable state of the implementa
 import os
 import sys
 import copy
+import signal
+import hashlib
 import json
 import types
 import inspect
@@ -155,13 +157,32 @@ def _name(o):
     return None
 
 
-def enc(x, ordered=False, _depth=0, _seen=None):
-    """canonical JSON-able form of an output / argument / attribute value.
+ENC_NODE_BUDGET = 20000        # nodes per snapshot; what lies beyond is encoded as an opaque token
+ENC_DEPTH = 12                 # nesting depth of objects (attribute walks); containers may nest to 4 x this
+_ADDR = __import__('re').compile(r'0x[0-9a-fA-F]+')
+
+
+class _EncState:
+    __slots__ = ('nodes', 'seen')
+
+    def __init__(self):
+        self.nodes = 0
+        self.seen = set()          # ids of the objects on the CURRENT path (cycle detection); an object that occurs several
+                                   # times is encoded in full each time, so that the encoding does not depend on the order in
+                                   # which a set happens to be iterated — the node budget bounds the total
+
+
+def enc(x, ordered=False, _depth=0, _st=None):
+    """canonical JSON-able form of an output / argument / attribute value.  TOTAL: bounded by a node budget and a depth limit,
+    cycles become a reference token, modules / classes /
+    functions / methods are encoded by name, random generators by a digest of their state, anything unknown by its type name
+    and an address-free repr.
     ordered=False: dict items and set members sorted (outputs); ordered=True: dict insertion order kept
     (argument and state snapshots: reordering a caller's dict counts as mutation)."""
     import votelib.evaluate.core as vcore
-    if _seen is None:
-        _seen = set()
+    if _st is None:
+        _st = _EncState()
+    _st.nodes += 1
     if x is None or isinstance(x, (bool, str)):
         return x
     if isinstance(x, int):
@@ -172,33 +193,55 @@ def enc(x, ordered=False, _depth=0, _seen=None):
         return {'X': str(x)}
     if isinstance(x, float):
         return {'f': repr(x)}
+    if _st.nodes > ENC_NODE_BUDGET:
+        return {'opaque': 'budget', 'type': type(x).__name__}
+    if _depth > 4 * ENC_DEPTH:
+        return {'opaque': 'depth', 'type': type(x).__name__}
     if isinstance(x, vcore.Tie):
-        return {'Tie': sorted((enc(e, ordered, _depth + 1, _seen) for e in x), key=_sk)}
+        return {'Tie': sorted((enc(e, ordered, _depth + 1, _st) for e in x), key=_sk)}
     if isinstance(x, dict):
-        items = [[enc(k, ordered, _depth + 1, _seen), enc(v, ordered, _depth + 1, _seen)] for k, v in x.items()]
+        items = [[enc(k, ordered, _depth + 1, _st), enc(v, ordered, _depth + 1, _st)] for k, v in x.items()]
         if not ordered:
             items.sort(key=lambda p: _sk(p[0]))
         return {'D': items}
     if isinstance(x, list):
-        return {'L': [enc(e, ordered, _depth + 1, _seen) for e in x]}
+        return {'L': [enc(e, ordered, _depth + 1, _st) for e in x]}
     if isinstance(x, tuple):
-        return {'T': [enc(e, ordered, _depth + 1, _seen) for e in x]}
+        return {'T': [enc(e, ordered, _depth + 1, _st) for e in x]}
     if isinstance(x, (set, frozenset)):
-        return {'S': sorted((enc(e, ordered, _depth + 1, _seen) for e in x), key=_sk)}
-    if isinstance(x, (types.FunctionType, types.BuiltinFunctionType, types.MethodType, type)) or callable(x) and not hasattr(x, '__dict__'):
-        return {'fn': getattr(x, '__qualname__', repr(type(x)))}
+        return {'S': sorted((enc(e, ordered, _depth + 1, _st) for e in x), key=_sk)}
+    if isinstance(x, types.ModuleType):
+        return {'module': x.__name__}
+    if isinstance(x, type):
+        return {'class': f'{x.__module__}.{x.__qualname__}'}
+    if isinstance(x, (types.FunctionType, types.BuiltinFunctionType, types.MethodType, types.MethodWrapperType,
+                      types.WrapperDescriptorType, types.MethodDescriptorType)):
+        return {'fn': f"{getattr(x, '__module__', None)}.{getattr(x, '__qualname__', type(x).__name__)}"}
     if isinstance(x, (bytes, bytearray)):
-        return {'b': x.hex()}
-    # library / candidate objects: class + attributes (recursion guarded)
-    if id(x) in _seen or _depth > 12:
+        return {'b': bytes(x[:64]).hex()}
+    import random as _random
+    if isinstance(x, _random.Random):
+        try:
+            return {'rng': hashlib.sha1(repr(x.getstate()).encode()).hexdigest()[:16]}
+        except Exception:
+            return {'rng': 'system'}
+    if callable(x) and not hasattr(x, '__dict__'):
+        return {'fn': type(x).__name__}
+    # library / candidate objects: class + attributes, each object once per snapshot
+    if id(x) in _st.seen:
         return {'ref': type(x).__name__}
-    _seen = _seen | {id(x)}
+    if _depth > ENC_DEPTH:
+        return {'opaque': 'depth', 'type': type(x).__name__}
     try:
         attrs = vars(x)
     except TypeError:
-        return {'obj': type(x).__name__, 'repr': repr(x)[:80]}
-    return {'obj': type(x).__name__,
-            'vars': [[k, enc(v, ordered, _depth + 1, _seen)] for k, v in sorted(attrs.items())]}
+        return {'obj': type(x).__name__, 'repr': _ADDR.sub('0x', repr(x))[:80]}
+    _st.seen.add(id(x))
+    try:
+        return {'obj': type(x).__name__,
+                'vars': [[k, enc(v, ordered, _depth + 1, _st)] for k, v in sorted(attrs.items(), key=lambda kv: str(kv[0]))]}
+    finally:
+        _st.seen.discard(id(x))
 
 
 def _sk(j):
@@ -558,6 +601,8 @@ def _targets():
     add('FixedSeatCount:dist', lambda: vcore.FixedSeatCount(HA(), 3), c_eval_simple_seatless_dist)
     add('TieBreaking', lambda: vcore.TieBreaking(vcore.Plurality(), vaux.InputOrderSelector()), c_eval_simple_sel)
     add('TieBreaking:sortitor', lambda: vcore.TieBreaking(vcore.Plurality(), vaux.Sortitor(seed=11)), c_eval_simple_sel, seed=11)
+    add('TieBreaking:ballots', lambda: vcore.TieBreaking(vcore.Plurality(), vaux.RandomUnrankedBallotSelector(seed=13)),
+        c_eval_simple_sel, seed=13)
     add('PartyListEvaluator', lambda: vcore.PartyListEvaluator(HA()), _c_partylist_closed)
     add('PartyListEvaluator:open', lambda: vcore.PartyListEvaluator(HA(), vopen.ThresholdOpenList(jump_fraction=Fraction(1, 10))),
         _c_partylist_open)
@@ -1301,8 +1346,8 @@ def _mutable_default(d):
     if isinstance(d, (dict, list, set, bytearray)):
         return True
     if d is None or isinstance(d, (bool, int, str, float, Fraction, Decimal, tuple, frozenset, bytes, type,
-                                   types.FunctionType, types.BuiltinFunctionType)):
-        return False
+                                   types.FunctionType, types.BuiltinFunctionType, types.ModuleType, types.MethodType)):
+        return False           # (a module as a default, e.g. `rng=random`, is not a container of the library's)
     return hasattr(d, '__dict__')          # a library object used as a shared default (SmithSet(), DEFAULT_MAPPER, ...)
 
 
@@ -1475,6 +1520,8 @@ class RngTrace:
                             tr.sites.add('draw_via:direct_transfer')
                         if any(q.endswith('next_count') for q in chain):
                             tr.sites.add('draw_via:next_count')
+                        if any(q.endswith('_select_n_random_float') for q in chain):
+                            tr.sites.add('draw_via:float_branch')
                         return _RNG_ORIG[n](*args, **kw)
                     return draw
                 setattr(_r, n, mk(n))
@@ -1561,7 +1608,37 @@ def reseed_contract(t, events):
     return None
 
 
+HISTORY_CPU_LIMIT = 90         # seconds of CPU one history may use, snapshots included
+
+
+class HarnessTimeout(BaseException):
+    """the hard guard around one history fired (BaseException: no `except Exception` of the library or harness swallows it)"""
+
+
+class _hard_guard:
+    """CPU-time guard on ITIMER_PROF / SIGPROF: independent of the SIGALRM alarms around the single library calls (alarms do
+    not nest: the inner alarm(0) cancels an outer alarm, which is why common.guarded cannot protect a whole history)"""
+    def __init__(self, seconds):
+        self.seconds = seconds
+
+    def __enter__(self):
+        def fire(signum, frame):
+            raise HarnessTimeout(f'history used more than {self.seconds} s of CPU')
+        self.old = signal.signal(signal.SIGPROF, fire)
+        signal.setitimer(signal.ITIMER_PROF, self.seconds)
+
+    def __exit__(self, *a):
+        signal.setitimer(signal.ITIMER_PROF, 0)
+        signal.signal(signal.SIGPROF, self.old)
+        return False
+
+
 def run_history(case):
+    with _hard_guard(HISTORY_CPU_LIMIT):
+        return _run_history(case)
+
+
+def _run_history(case):
     T = TARGETS()
     names = case['targets']
     calls = case['calls']
@@ -1831,7 +1908,7 @@ REQUIRED_COUNTERS = ['every_class', 'singleton', 'pav_cache_grows', 'pav_small_a
                      'model:pav', 'model:borda', 'model:rng', 'model:rankval', 'model:scoreval', 'checker_materialised',
                      'rng_directed', 'draw:Hare._subtract', 'draw:Hare._distribute_equal_ranking', 'draw:Sortitor.evaluate',
                      'draw:RandomUnrankedBallotSelector.evaluate', 'draw_via:initial_allocation', 'draw_via:direct_transfer',
-                     'draw_via:next_count', 'foreign_first', 'model:dispatch', 'raise_first', 'call_after_exception',
+                     'draw_via:next_count', 'draw_via:float_branch', 'foreign_first', 'model:dispatch', 'raise_first', 'call_after_exception',
                      'call_after_refusal', 'refusal_first', 'prev_gains_then_none', 'larger_then_smaller', 'smaller_after_larger',
                      'nested_depth3', 'nested_depth4', 'nested_depth3_prev_gains', 'nested_depth4_prev_gains', 'same_argument_objects',
                      'eliminator_mixed_candidates', 'reject:candidate_error', 'reject:candidate_error_only',
@@ -2053,10 +2130,18 @@ def _rng_calls(rng):
     def tie(r):
         return call('evaluate', D([('p', 5), ('q', 5), ('r', 5), ('s', 2)]), r.randint(1, 2))
 
+    def ballots_float(r):             # float counts: util._select_n_random_float (random.choices), the inexact branch
+        return call('evaluate', D([('p', {'fl': '5.5'}), ('q', {'fl': repr(r.choice([4.0, 4.25, 1.4]))}), ('r', {'fl': '3.0'}),
+                                   ('s', 2)]), r.randint(1, 3))
+
+    def sortition_float(r):
+        return call('evaluate', D([('p', {'fl': '5.5'}), ('q', {'fl': '4.25'}), ('r', {'fl': '0.5'})]), r.randint(1, 2))
+
     stv = [stv_shared_first, stv_elim_shared, stv_surplus, stv_surplus_shared]
     return {'Hare': [transfer_shared], 'TransferableVoteSelector:hare': stv, 'TransferableVoteDistributor:hare': stv,
-            'Sortitor': [sortition], 'Sortitor:seed8': [sortition, tie],
-            'RandomUnrankedBallotSelector': [sortition, ballots_frac], 'TieBreaking:sortitor': [tie]}
+            'Sortitor': [sortition, sortition_float], 'Sortitor:seed8': [sortition, tie, sortition_float],
+            'RandomUnrankedBallotSelector': [sortition, ballots_frac, ballots_float], 'TieBreaking:sortitor': [tie],
+            'TieBreaking:ballots': [tie, ballots_float]}
 
 
 PERTURBERS = ['Sortitor', 'Sortitor:seed8', 'Sortitor:unseeded', 'RandomUnrankedBallotSelector',
